@@ -11,7 +11,7 @@ const SPEC: Spec = Spec {
     assumptions: &["values from the 30-value magnitude pool and the 5-letter digit alphabet up to 2 digits; 'larger-capacity predecessor' built by set_zero / set_one / clone_from / >>= on a 70-digit object"],
     bounds_quick: "U pool + Dense(S5,3), both signs, x 4 provenances; AS all ordered pairs of those ~360 signed values; FP 3 signs x all magnitudes; ST sign tables",
     bounds_thorough: "same with Dense(S5,4) (~1300 signed values, 1.7M ordered pairs for abs_sub)",
-    hang_secs: 120,
+    hang_secs: 60,
     probes: None,
     max_workers: 16,
 };
